@@ -41,6 +41,22 @@ fn expect_literal(kind: &str, text: &str, want: &Value) -> Verdict {
     }
 }
 
+/// the same literal as the expression of a rule (name and description are C14's business: only the expression is looked at)
+fn expect_string_through_rule(text: &str, want: &str) -> Verdict {
+    let rule_text = format!("// n\r\n@k: i1;\r\n{text}\r\n// trailing");
+    match catch(|| Rule::parse(&rule_text)) {
+        Err(p) => Err(Issue::new("literal:panic", format!("Rule::parse panicked ({p}) on {rule_text:?}"))),
+        Ok(Err(e)) => Err(Issue::new("literal:string:rule-rejected", format!("rule text {rule_text:?} is rejected: {e}"))),
+        Ok(Ok(rule)) => match rule.expr() {
+            Expr::Value(Value::String(s)) if s == want => Ok(()),
+            other => Err(Issue::new(
+                "literal:string:through-rule",
+                format!("string literal {text:?} as a rule's expression denotes {} instead of {want:?}", show_expr(other)),
+            )),
+        },
+    }
+}
+
 fn expect_rejected(kind: &str, text: &str) -> Verdict {
     match parse_caught(text)? {
         Err(_) => Ok(()),
@@ -246,7 +262,7 @@ fn string_case(d: &mut Dec) -> (String, String) {
     let n = d.below(10);
     let s: String = (0..n)
         .map(|_| match d.below(6) {
-            0 => *d.pick(&['\n', '\r', '\t', '\\', '\'', '"']),
+            0 => *d.pick(&['\n', '\r', '\t', '\\', '\'', '"', '\n', '/']),
             1 => char::from_u32((d.u64() % 0x11_0000) as u32).unwrap_or('\u{fffd}'),
             2 => char::from_u32(d.below(0x20) as u32).unwrap(),
             3 => *d.pick(&['/', ' ', '\u{a0}', '\u{2028}', '\u{85}', '😀', 'ß', '\u{301}', '{', '}', 'u', 'n']),
@@ -596,7 +612,8 @@ pub fn run(ctx: &Ctx) {
                 let nt = text.contains('\\') || !s.is_ascii();
                 acc.case("string", nt, || text.clone());
             }
-            expect_literal("string", &text, &Value::String(s))
+            expect_literal("string", &text, &Value::String(s.clone()))?;
+            expect_string_through_rule(&text, &s)
         },
         |bytes| {
             let (s, text) = string_case(&mut Dec::new(bytes));
@@ -634,7 +651,7 @@ pub fn run(ctx: &Ctx) {
         vec!["!", "a", "contains", "\"s\"", "/", "/", "x"],
         vec!["i", "1", "in", "ty", "==", "=", "0x1", "f"],
     ];
-    let seps = [" ", "", "\n", "\t", "// c\n", "\u{a0}", "\r\n"];
+    let seps = [" ", "", "\n", "\t", "// c\n", "\u{a0}", "// c\r"];
     let mut combos: Vec<(usize, u64)> = vec![];
     for (si, sq) in seqs.iter().enumerate() {
         let gaps = sq.len() as u32 - 1;
@@ -742,7 +759,8 @@ pub fn replay(j: &serde_json::Value) -> Option<Verdict> {
         return Some(check_dec(&c));
     }
     if let Some(t) = j.get("string_text").and_then(|x| x.as_str()) {
-        return Some(expect_literal("string", t, &Value::String(j.get("string")?.as_str()?.to_string())));
+        let want = j.get("string")?.as_str()?.to_string();
+        return Some(expect_literal("string", t, &Value::String(want.clone())).and_then(|_| expect_string_through_rule(t, &want)));
     }
     if let Some(w) = j.get("word").and_then(|x| x.as_str()) {
         return Some(check_word(w));
